@@ -191,6 +191,12 @@ func classifyLoop(h *ssa.BasicBlock, body map[*ssa.BasicBlock]bool) (kind, why s
 					}
 				}
 			}
+			if !ok && op == token.NEQ {
+				// the cursor may live in a field: for x.t.Elem != nil { x.t = x.t.Elem }
+				if why, okCell := cellCursor(cur, h, body); okCell {
+					return "cursor", why
+				}
+			}
 			if ok && ph.Block() == h && op == token.NEQ {
 				all := true
 				for i, e := range ph.Edges {
@@ -693,4 +699,104 @@ func loopGate(push ssa.Instruction, elem ssa.Value, h *ssa.BasicBlock, body map[
 		ok = true
 	})
 	return ok
+}
+
+// cellCursor: the tested value is reached by child steps from a load of a field cell, and inside the loop that cell is
+// only ever assigned a child of its own current value, on every iteration.
+func cellCursor(tested ssa.Value, h *ssa.BasicBlock, body map[*ssa.BasicBlock]bool) (string, bool) {
+	// walk down the child steps to the cell load
+	v := stripChange(tested)
+	steps := 0
+	var cell *ssa.FieldAddr
+	for d := 0; d < 6 && cell == nil; d++ {
+		u, ok := v.(*ssa.UnOp)
+		if !ok || u.Op != token.MUL {
+			return "", false
+		}
+		fa, ok := u.X.(*ssa.FieldAddr)
+		if !ok {
+			return "", false
+		}
+		nm, f, b, _ := fieldOf(fa)
+		if nm != nil && isLinkField(nm.Obj().Name(), f) && steps == 0 && false {
+			return "", false
+		}
+		// is the base itself a load of a field cell (x.t)? then fa is a child step of that cell
+		if bu, ok := stripChange(b).(*ssa.UnOp); ok && bu.Op == token.MUL {
+			if bfa, ok := bu.X.(*ssa.FieldAddr); ok {
+				steps++
+				// candidate cell: bfa — accept when the loop stores to the same path
+				cell = bfa
+				_ = f
+				break
+			}
+		}
+		steps++
+		v = stripChange(b)
+	}
+	if cell == nil || steps == 0 {
+		return "", false
+	}
+	cellPath := accessPath(cell)
+	_, cellField, _, _ := fieldOf(cell)
+	var stores []*ssa.Store
+	okAll := true
+	for b := range body {
+		for _, in := range b.Instrs {
+			st, ok := in.(*ssa.Store)
+			if !ok {
+				continue
+			}
+			fa, ok := st.Addr.(*ssa.FieldAddr)
+			if !ok {
+				continue
+			}
+			if _, f, _, _ := fieldOf(fa); f != cellField || accessPath(fa) != cellPath {
+				continue
+			}
+			stores = append(stores, st)
+			// the stored value: a child of a load of the same cell
+			val := stripChange(st.Val)
+			n := 0
+			good := false
+			for d := 0; d < 6; d++ {
+				u, ok := val.(*ssa.UnOp)
+				if !ok || u.Op != token.MUL {
+					break
+				}
+				fa2, ok := u.X.(*ssa.FieldAddr)
+				if !ok {
+					break
+				}
+				if accessPath(fa2) == cellPath && n > 0 {
+					good = true
+					break
+				}
+				_, _, b2, _ := fieldOf(fa2)
+				n++
+				val = stripChange(b2)
+			}
+			if !good {
+				okAll = false
+			}
+		}
+	}
+	if !okAll || len(stores) == 0 {
+		return "", false
+	}
+	for _, pr := range h.Preds {
+		if !body[pr] {
+			continue
+		}
+		dom := false
+		for _, st := range stores {
+			if st.Block().Dominates(pr) {
+				dom = true
+			}
+		}
+		if !dom {
+			return "", false
+		}
+	}
+	return "the cursor cell " + cellPath + " is assigned a child of itself on every iteration and the loop stops at nil", true
 }
